@@ -242,6 +242,8 @@ class Merge(Expr):
             s_method in ("disk", "tasks", "p2p")
             and self.how in ("inner", "left", "right", "leftsemi")
             and self.how != broadcast_side
+            # The left side of a "leftsemi" join can't be broadcasted either
+            and not (self.how == "leftsemi" and broadcast_side == "left")
             and broadcast is not False
         ):
             n_low = min(self.left.npartitions, self.right.npartitions)
